@@ -264,8 +264,8 @@ func (j *jsonReader) Type() Type {
 	if ty, ok := typeFromName(typ); ok {
 		return ty
 	}
-	//TODO: return error
-	panic("Invalid type")
+	// Unknown type name: report an invalid type, which no getter accepts.
+	return typeInvalid
 }
 
 // Tag implements reader.
